@@ -493,14 +493,14 @@ pub fn one_main(prop: &dyn Property, tier: Tier, file: &Path) -> i32 {
 }
 
 #[derive(Debug, Clone)]
-enum OneResult {
+pub(crate) enum OneResult {
     Pass,
     Fail(Failure),
     Crash(i32),
     Hang,
 }
 
-fn run_one_isolated(prop: &dyn Property, tier: Tier, bytes: &[u8], scratch: &Path, timeout: Duration) -> OneResult {
+pub(crate) fn run_one_isolated(prop: &dyn Property, tier: Tier, bytes: &[u8], scratch: &Path, timeout: Duration) -> OneResult {
     let hexfile = scratch.join(format!("one_{}.hex", std::process::id()));
     std::fs::write(&hexfile, hex(bytes)).unwrap();
     run_file_isolated(prop, tier, &hexfile, timeout)
@@ -558,11 +558,11 @@ fn same_kind(a: &OneResult, b: &OneResult) -> bool {
     matches!(
         (a, b),
         (OneResult::Crash(_), OneResult::Crash(_)) | (OneResult::Hang, OneResult::Hang)
-    )
+    ) || matches!((a, b), (OneResult::Fail(x), OneResult::Fail(y)) if x.sig == y.sig)
 }
 
 /// shrink a crashing / hanging case with one fresh process per candidate
-fn shrink_isolated(prop: &dyn Property, tier: Tier, bytes: Vec<u8>, kind: &OneResult, scratch: &Path) -> Vec<u8> {
+pub(crate) fn shrink_isolated(prop: &dyn Property, tier: Tier, bytes: Vec<u8>, kind: &OneResult, scratch: &Path) -> Vec<u8> {
     let mut cur = bytes;
     let mut budget = if matches!(kind, OneResult::Hang) { 40 } else { 120 };
     let timeout = if matches!(kind, OneResult::Hang) {
@@ -607,7 +607,7 @@ fn out_replay_dir(id: &str) -> PathBuf {
     verif_root().join("out").join("replays").join(id)
 }
 
-fn write_replay(prop: &dyn Property, bytes: &[u8], f: &Failure, tier: Tier) -> PathBuf {
+pub(crate) fn write_replay(prop: &dyn Property, bytes: &[u8], f: &Failure, tier: Tier) -> PathBuf {
     let dir = out_replay_dir(prop.id());
     let _ = std::fs::create_dir_all(&dir);
     let name = format!("{:016x}.json", fnv64(bytes) ^ fnv64(f.sig.as_bytes()));
